@@ -68,6 +68,17 @@ def drive_and_validate(label, h, args, timeout=3000):
              wall_s=round(p.wall + r.wall, 1))
     log("[trace] %s: %d events, %d signatures, drift %d, violations %s (%.1fs drive, %.1fs TLC)" %
         (label, v["len"], st["signatures"], v["drift"], v["nviols"], p.wall, r.wall))
+    if os.environ.get("VERIF_SELFTEST") and v["len"] <= 2500 and not sum(v["nviols"].values()) and "replay" not in label:
+        import kit, itertools
+        ctr = itertools.count()
+        def jf(lab, pth, exp):
+            res1 = os.path.join(sc, "xmss-%s.st%d.result.json" % (label, next(ctr)))
+            r1 = tlc("TraceXmssKey", cfg, workers=1, env={"VERIF_TRACE": pth, "VERIF_RESULT": res1}, timeout=timeout, heap="3g")
+            if not os.path.exists(res1):
+                raise Infra("selftest trace produced no result")
+            v1 = json.load(open(res1))
+            return {"nviol": sum(v1["nviols"].values()), "drift": v1["drift"], "viols": v1["viols"]}
+        kit.selftest(label, "TraceXmssKey", cfg, tr, stateless=False, judge_fn=jf)
     return v
 
 def sample_events(trace, n=3):
@@ -214,6 +225,8 @@ def check(pid, tier):
     if drift:
         log("MODEL-DRIFT property=%s events=%d: the code no longer follows spec/Bds.tla step by step (property observables %s)" %
             (pid, drift, "FAILED" if viols else "intact"))
+    import kit as _kit
+    _kit.selftest_write(pid)
     if viols:
         print("VIOLATION property=%s replay=%s" % (pid, replay))
         log("  " + viols[0]["what"])
